@@ -8,6 +8,7 @@
 -/
 import Saltpack.Model.Bufio
 import Saltpack.Proofs.ClassifyAux
+import Saltpack.Proofs.ClassifyCodec
 
 namespace Saltpack.Proofs.BufioP
 open Saltpack Saltpack.Stream Saltpack.Bufio
@@ -400,8 +401,9 @@ theorem binary_full (s : BState) (hi : Inv s) (hfull : s.size ≤ (view s).1.len
 theorem binarySlice_ne_eof (b : Bytes) : Classify.binarySlice b ≠ .eof := by
   unfold Classify.binarySlice
   repeat' (first | split | dsimp only)
-  all_goals intro h
-  all_goals first | (cases h; done)
+  all_goals first
+    | exact (Saltpack.Proofs.CodecMono.binBody_ne_short _).2
+    | (intro h; cases h; done)
 
 theorem armoredPrefix_ne_eof (pref : Bytes) : Classify.armoredPrefix pref ≠ .eof := by
   rw [Saltpack.Proofs.ClsAux.armoredPrefix_norm]
